@@ -43,6 +43,8 @@ def _structure_flags(r, roll, tree):
             exp = [(r.sources[0], tree[2])]
         elif t == "unb":
             exp = [(r.sources[0], tree[4])]
+        elif t == "unc":
+            exp = [(r.sources[0], tree[2])]
         else:
             subs = tree[1] if t == "pool" else tree[3] if t == "filt" else tree[2]
             exp = list(zip(r.sources, subs))
